@@ -120,6 +120,13 @@ var (
 	rDateVal  = Rule{"TAB-DATEVAL", rules.TabDateVal}
 	rTextAuth = Rule{"OWN-TEXTAUTH", rules.OwnTextAuth}
 	rOwnInput = Rule{"OWN-INPUT", rules.OwnInput}
+	rStepIn   = Rule{"ORD-STEPIN", rules.OrdStepIn}
+	rLobWS    = Rule{"OWN-LOBWS", rules.OwnLobWS}
+	rBuild    = Rule{"OWN-BUILD", rules.OwnBuild}
+	rImpFirst = Rule{"ORD-IMPORTFIRST", rules.OrdImportFirst}
+	rSid0     = Rule{"TAB-SID0", rules.TabSid0}
+	rTokCache = Rule{"OWN-TOKCACHE", rules.OwnTokCache}
+	rRefuseW  = Rule{"REFUSE-PURE-W", rules.RefusePureW}
 
 	rGuardW  = Rule{"ERR-GUARD-W", rules.ErrGuardW}
 	rStickyW = Rule{"ERR-STICKY-W", rules.ErrStickyW}
@@ -145,13 +152,13 @@ var registry = map[string]*Property{
 		},
 	},
 	"C02": {
-		Decided:    "The text reader's finite tables equal the Ion 1.0 text tables: every escape with its code point and digit count, \\u and \\U refused inside clobs (TAB-ESCAPE, reader obligations); the 13 null.<type> names (TAB-NULLKW, reader obligations); every token the tokenizer can hand out at the start of a value has an arm in the reader's value dispatch (TAB-TOKEN, value arms).",
+		Decided:    "The text reader's finite tables equal the Ion 1.0 text tables: every escape with its code point and digit count, \\u and \\U refused inside clobs (TAB-ESCAPE, reader obligations); the 13 null.<type> names (TAB-NULLKW, reader obligations); every token the tokenizer can hand out at the start of a value has an arm in the reader's value dispatch (TAB-TOKEN, value arms); inside {{ }} no comment-skipping whitespace routine is reachable, so base64 text containing '//' or '/*' decodes (OWN-LOBWS); no comparison treats symbol ID 0 ($0) differently from the positive IDs (TAB-SID0).",
 		Necessary:  "An escape decoded to another code point, a null.<type> name mapped to another type, or a value-start token without a dispatch arm makes a legal spelling decode to another value or to an error.",
 		NotDecided: "number, string-segmentation, comment/whitespace and timestamp grammar (behaviour of loops over characters); $n handling",
 		Technique:  tabTech,
 		DesignRef:  "DESIGN.md §3.4, §4 C02",
 		Rules: []Rule{
-			only(rEscape, 18, whatHas("reader:")), only(rNullKW, 13, whatHas("reader:")), only(rToken, 14, whatHas("value arm")),
+			only(rEscape, 18, whatHas("reader:")), only(rNullKW, 13, whatHas("reader:")), only(rToken, 14, whatHas("value arm")), rLobWS, rSid0,
 		},
 	},
 	"C03": {
@@ -178,12 +185,12 @@ var registry = map[string]*Property{
 		},
 	},
 	"C05": {
-		Decided:    "A symbol token's text is authoritative wherever a token is turned into bytes: (i) text taken from a SymbolToken is never handed to a parameter that is interpreted as a '$n' symbol-ID reference (symbolIdentifier with its ID result used, binaryWriter.resolve, Writer.WriteSymbolFromString, newSymbolToken — the set is computed from the call graph), in package ion and in the command's copy loop; (ii) in the binary writer a token's LocalSID becomes the ID to write only on the edge where its Text is nil, at the one place (resolveToken) all three uses — value, field name, annotation — go through; (iii) the text reader applies the '$n' interpretation only to unquoted identifier tokens (OWN-TEXTAUTH).",
+		Decided:    "A symbol token's text is authoritative wherever a token is turned into bytes: (i) text taken from a SymbolToken is never handed to a parameter that is interpreted as a '$n' symbol-ID reference (symbolIdentifier with its ID result used, binaryWriter.resolve, Writer.WriteSymbolFromString, newSymbolToken — the set is computed from the call graph), in package ion and in the command's copy loop; (ii) in the binary writer a token's LocalSID becomes the ID to write only on the edge where its Text is nil, at the one place (resolveToken) all three uses — value, field name, annotation — go through; (iii) the text reader applies the '$n' interpretation only to unquoted identifier tokens (OWN-TEXTAUTH); no comparison of a LocalSID treats $0 differently from the positive IDs, so a symbol without text is copied like any other (TAB-SID0); no Reader field keeps a resolved token beyond the symbol table it was resolved in (OWN-TOKCACHE).",
 		Necessary:  "The Reader attaches the source table's SID to every token. A writer that prefers LocalSID over text emits IDs of a table the output never declares (F6), and one that passes token text through the '$n' interpretation writes the symbol '$5' as symbol 5 (F5); both change the copied document whenever source and destination tables differ. Both were genuine defects on the pinned tree and were repaired (fix: f27bc41, 36b2787).",
 		NotDecided: "equivalence of whole documents across formats; that every reader accessor result is forwarded by the copy loop; the text writer's spelling of tokens without text ($n)",
 		Technique:  "call-graph fixed point for '$n'-interpreting parameters + SSA value-flow from SymbolToken.Text loads to call arguments; branch-fact dominance (Text == nil) at LocalSID uses; enum value-set dataflow of the token kind at newSymbolToken calls",
 		DesignRef:  "DESIGN.md §3.6 OWN-TEXTAUTH, §4 C05, §0.7",
-		Rules:      []Rule{rTextAuth},
+		Rules:      []Rule{rTextAuth, rSid0, rTokCache},
 	},
 	"C06": {
 		Decided:    "In package ion: a pointer obtained from an accessor that returns (nil, nil) for a typed null is dereferenced only where it is known non-nil, with preconditions inferred through helper calls (NIL-ACC); such a pointer is not passed to a callee that dereferences it unguarded (NIL-ARG); the pointer fields documented nil-if-unknown (SymbolToken.Text/Source, ImportSource) are dereferenced only under a nil test of the same access path (NIL-FIELD); every panicking pop on the reader-side stacks is dominated by a non-emptiness fact (ORD-POPGUARD, reader obligations); on the input side every allocation with a non-constant size is sized by the length of data already in memory or by a value bounded by 2^20 — a declared length never sizes an allocation before the bytes exist (NUM-ALLOC, 2 residual rows).",
@@ -209,28 +216,28 @@ var registry = map[string]*Property{
 		},
 	},
 	"C08": {
-		Decided:    "Every Reader method exit that refuses a call (returns a fresh *UsageError) is free of side effects on the reader (REFUSE-PURE); every token the tokenizer hands out as an unfinished value has a skip arm (TAB-TOKEN, skip arms).",
+		Decided:    "Every Reader method exit that refuses a call (returns a fresh *UsageError) is free of side effects on the reader (REFUSE-PURE); every token the tokenizer hands out as an unfinished value has a skip arm (TAB-TOKEN, skip arms); StepIn enters a nesting level only for a non-null container in both implementations (ORD-STEPIN); none of the lob readers and skippers reaches the comment-skipping whitespace routine, so skip and read agree that '/' inside {{ }} is data (OWN-LOBWS).",
 		Necessary:  "A refused StepIn/StepOut/accessor that changes cursor state, or a value kind that cannot be skipped, makes later results depend on the navigation.",
-		NotDecided: "agreement of skip and read on where an arbitrary value ends (finding F17: lob skipping, TAB-LOBSKIP and SIB-READER not built)",
+		NotDecided: "agreement of skip and read on where an arbitrary value ends (finding F17, clob text containing '}', was repaired but no rule would detect its return)",
 		Technique:  ssaTech + "; " + tabTech,
 		DesignRef:  "DESIGN.md §3.1, §3.4, §4 C08",
-		Rules:      []Rule{rRefuse, only(rToken, 13, whatHas("skip arm"))},
+		Rules:      []Rule{rRefuse, only(rToken, 13, whatHas("skip arm")), rStepIn, rLobWS},
 	},
 	"C09": {
-		Decided:    "Every insertion into a symbol text index (buildIndex, symbolTableBuilder.Add, Build) happens only when the text is not present yet, with imports consulted before locals, or copies an existing index (ORD-FIRSTWINS); NewSymbolTokenBySID looks an ID up only after 0 <= sid <= MaxID() was established and rejects everything else (ORD-SIDBOUND).",
+		Decided:    "Every insertion into a symbol text index (buildIndex, symbolTableBuilder.Add, Build) happens only when the text is not present yet, with imports consulted before locals, or copies an existing index (ORD-FIRSTWINS); NewSymbolTokenBySID looks an ID up only after 0 <= sid <= MaxID() was established and rejects everything else (ORD-SIDBOUND); a local table resolves text through its imports before its own index on every path (ORD-IMPORTFIRST); Build neither writes to the builder nor hands the builder's own symbols/index storage to the built table (OWN-BUILD).",
 		Necessary:  "An index insert that overwrites gives the highest instead of the lowest ID for a text and lets the builder renumber a known symbol; an unchecked ID above MaxID is not rejected.",
 		NotDecided: "the offset arithmetic across imports (processImports, findByIDInImports, Adjust) — numeric; immutability of built tables is decided under C18 (OWN-IMMUT), not here, because a write that keeps the numbering (a lazily built index) does not break this property",
 		Technique:  "SSA dominance facts keyed by canonical access path (comma-ok lookup / FindByName result false before the map update)",
 		DesignRef:  "DESIGN.md §3.5, §4 C09",
-		Rules:      []Rule{rOrdFirstWins, rOrdSidBound},
+		Rules:      []Rule{rOrdFirstWins, rOrdSidBound, rImpFirst, rBuild},
 	},
 	"C10": {
-		Decided:    "Every successful path of binaryReader.readBVM resets the context to the system table (ORD-BVMRESET); once a top-level struct is recognised as $ion_symbol_table every exit reports 'not a user value' or an error (ORD-LSTHIDE); the symbol table reader dereferences accessor results only under the non-null precondition, so typed nulls in imports/name/version/max_id/symbols do not crash it (NIL-ACC scoped to readlocalsymboltable.go).",
+		Decided:    "Every successful path of binaryReader.readBVM resets the context to the system table (ORD-BVMRESET); once a top-level struct is recognised as $ion_symbol_table every exit reports 'not a user value' or an error (ORD-LSTHIDE); the symbol table reader dereferences accessor results only under the non-null precondition, so typed nulls in imports/name/version/max_id/symbols do not crash it (NIL-ACC scoped to readlocalsymboltable.go); every Reader field that can hold a resolved token is reset per value or after every assignment of the current table, so no token outlives the table it was resolved in (OWN-TOKCACHE).",
 		Necessary:  "A version marker that keeps the old table, a table struct surfacing as a user value, or a panic on a typed null in a table slot (F8, fixed) each break resolution against the table in force.",
 		NotDecided: "append/replace semantics, catalog fallback order, max_id trimming/padding",
 		Technique:  "SSA must-pass-through and nil-fact dataflow",
 		DesignRef:  "DESIGN.md §3.2, §3.5, §4 C10",
-		Rules:      []Rule{rOrdBVMReset, rOrdLstHide, {"NIL-ACC", rules.NilAcc(rules.ScopeLST, 4)}},
+		Rules:      []Rule{rOrdBVMReset, rOrdLstHide, {"NIL-ACC", rules.NilAcc(rules.ScopeLST, 4)}, rTokCache},
 	},
 	"C11": {
 		Decided:    "The field names and the annotation the symbol table writer emits are exactly those the symbol table reader dispatches on, max_id included (TAB-LSTFIELDS); the fixed/imported table is written before the first value (ORD-LSTFIRST); the builder consults imports and existing entries before defining a local symbol (ORD-FIRSTWINS); token text reaches the table lookup as it is — never through the '$n' interpretation, which would bypass a fixed table's 'not defined' error and emit an arbitrary ID (OWN-TEXTAUTH, binary writer obligations).",
@@ -238,16 +245,16 @@ var registry = map[string]*Property{
 		NotDecided: "ID arithmetic; that unknown text under a fixed table is an error (OWN-FIXEDLST not built)",
 		Technique:  tabTech + "; SSA dominance for ORD",
 		DesignRef:  "DESIGN.md §3.4, §3.5, §4 C11",
-		Rules:      []Rule{rLstFields, rOrdLstFirst, rOrdFirstWins, only(rTextAuth, 2, posHas("ion/binarywriter.go"))},
+		Rules:      []Rule{rLstFields, rOrdLstFirst, rOrdFirstWins, only(rTextAuth, 2, posHas("ion/binarywriter.go")), rImpFirst, rBuild},
 	},
 	"C12": {
-		Decided:    "For all 24 error-returning Writer methods on each writer implementation: the sticky error is tested before any effect on the writer (ERR-GUARD-W) and every returned error is the sticky error (ERR-STICKY-W); every value opened is closed on each success path (ORD-VALUE); Finish re-arms the binary writer before every success exit (ORD-REARM); every panicking pop on the writer-side stacks is dominated by a non-emptiness fact (ORD-POPGUARD, writer obligations); nothing in the writer implementation reachable from the Writer methods consults a time-, random- or schedule-dependent source and every map range there has an order-insensitive body (OWN-NONDET, functions outside marshal.go, fields.go and the command).",
+		Decided:    "For all 24 error-returning Writer methods on each writer implementation: the sticky error is tested before any effect on the writer (ERR-GUARD-W) and every returned error is the sticky error (ERR-STICKY-W); every value opened is closed on each success path (ORD-VALUE); Finish re-arms the binary writer before every success exit (ORD-REARM); every panicking pop on the writer-side stacks is dominated by a non-emptiness fact (ORD-POPGUARD, writer obligations); nothing in the writer implementation reachable from the Writer methods consults a time-, random- or schedule-dependent source and every map range there has an order-insensitive body (OWN-NONDET, functions outside marshal.go, fields.go and the command); an exit that refuses a call with an unrecorded UsageError (Finish away from the top level) is reached before any effect on the writer (REFUSE-PURE-W).",
 		Necessary:  "A method that works after an earlier error or returns an error it does not remember lets a later Finish return nil (F1–F3, fixed); an unclosed value or a Finish that is not re-armed emits an invalid stream on a nil Finish (F4, fixed); an unguarded pop panics on an illegal call sequence; a nondeterminism source makes the same calls yield different bytes.",
 		NotDecided: "validity of the emitted stream beyond pairing (see C04), nil pointer arguments, WriteNullType with an out-of-range Type (finding F23, TAB-INDEX not built)",
 		Technique:  ssaTech,
 		DesignRef:  "DESIGN.md §3.1, §3.5, §3.6, §4 C12",
 		Rules: []Rule{
-			rGuardW, rStickyW, rOrdValue, rOrdRearm, only(rOrdPopGuard, 2, funcHas("Writer", "writer")), only(rOwnNondet, 40, posLacks("ion/marshal.go", "ion/fields.go", "cmd/")),
+			rGuardW, rStickyW, rOrdValue, rOrdRearm, only(rOrdPopGuard, 2, funcHas("Writer", "writer")), only(rOwnNondet, 40, posLacks("ion/marshal.go", "ion/fields.go", "cmd/")), rRefuseW,
 		},
 	},
 	"C13": {
@@ -303,7 +310,7 @@ var registry = map[string]*Property{
 		NotDecided: "thread-safety of reflect, math/big, fmt, strconv internals (assumed); user-supplied io.Reader/io.Writer/Marshaler implementations",
 		Technique:  "SSA store/alias roots + call-graph effect summaries",
 		DesignRef:  "DESIGN.md §3.6, §4 C18",
-		Rules:      []Rule{rOwnImmut, rOwnGlobal, rOwnEscape, rOwnNondet},
+		Rules:      []Rule{rOwnImmut, rOwnGlobal, rOwnEscape, rOwnNondet, rBuild},
 	},
 	"C19": {
 		Decided:    "In the reader and writer files of package ion no error of a module function, ion interface method or I/O primitive is discarded (ERR-DROP) and no path from a non-nil error test reaches an exit with the error neither consumed nor replaced by a definitely non-nil error (ERR-SWAP); a failed write is sticky in every Writer method (ERR-STICKY-W); a failed read is made sticky before a Reader method returns it (ERR-STICKY-R); the caller's io.Reader is only wrapped in a bufio.Reader and that is used only through complete-or-error primitives (ReadByte, Peek, Discard, io.ReadFull), so no result depends on how a Read was chunked (OWN-INPUT).",
@@ -327,18 +334,26 @@ var registry = map[string]*Property{
 
 // devRules: every rule by name, for `ionlint -dev RULE`.
 var devRules = map[string]Rule{
-	"NUM-NARROW":   {"NUM-NARROW", rules.NumNarrow(rules.ScopeNum, rules.NarrowResiduals, 0)},
-	"NUM-SHIFT":    {"NUM-SHIFT", rules.NumShift(rules.ScopeNum, rules.ShiftResiduals, 0)},
-	"NUM-EXP32":    {"NUM-EXP32", rules.NumArith32(rules.ScopeNum, nil, 0)},
-	"NUM-BIG":      {"NUM-BIG", rules.NumBig(rules.ScopeIon, 0)},
-	"NUM-F32":      {"NUM-F32", rules.NumF32(rules.ScopeIon, 0)},
-	"NUM-REFLECT":  {"NUM-REFLECT", rules.NumReflect(rules.ScopeIon, 0)},
-	"NUM-NOFLOAT":  {"NUM-NOFLOAT", rules.NumNoFloat},
-	"TAB-LENPAY":   {"TAB-LENPAY", rules.TabLenPay},
-	"TAB-CODEC":    {"TAB-CODEC", rules.TabCodec},
-	"OWN-TEXTAUTH": {"OWN-TEXTAUTH", rules.OwnTextAuth},
-	"OWN-INPUT":    {"OWN-INPUT", rules.OwnInput},
-	"TAB-DATEVAL":  {"TAB-DATEVAL", rules.TabDateVal},
-	"NUM-ALLOC":    {"NUM-ALLOC", rules.NumAlloc(rules.ScopeAlloc, rules.AllocResiduals, 0)},
-	"NUM-BIG-ALL":  {"NUM-BIG", rules.NumBig(rules.Scope{Name: "module"}, 0)},
+	"NUM-NARROW":      {"NUM-NARROW", rules.NumNarrow(rules.ScopeNum, rules.NarrowResiduals, 0)},
+	"NUM-SHIFT":       {"NUM-SHIFT", rules.NumShift(rules.ScopeNum, rules.ShiftResiduals, 0)},
+	"NUM-EXP32":       {"NUM-EXP32", rules.NumArith32(rules.ScopeNum, nil, 0)},
+	"NUM-BIG":         {"NUM-BIG", rules.NumBig(rules.ScopeIon, 0)},
+	"NUM-F32":         {"NUM-F32", rules.NumF32(rules.ScopeIon, 0)},
+	"NUM-REFLECT":     {"NUM-REFLECT", rules.NumReflect(rules.ScopeIon, 0)},
+	"NUM-NOFLOAT":     {"NUM-NOFLOAT", rules.NumNoFloat},
+	"TAB-LENPAY":      {"TAB-LENPAY", rules.TabLenPay},
+	"TAB-CODEC":       {"TAB-CODEC", rules.TabCodec},
+	"OWN-TEXTAUTH":    {"OWN-TEXTAUTH", rules.OwnTextAuth},
+	"OWN-INPUT":       {"OWN-INPUT", rules.OwnInput},
+	"TAB-DATEVAL":     {"TAB-DATEVAL", rules.TabDateVal},
+	"ORD-STEPIN":      {"ORD-STEPIN", rules.OrdStepIn},
+	"NUM-INDEX":       {"NUM-INDEX", rules.NumIndex(rules.ScopeAlloc, nil, 0)},
+	"REFUSE-PURE-W":   {"REFUSE-PURE-W", rules.RefusePureW},
+	"OWN-TOKCACHE":    {"OWN-TOKCACHE", rules.OwnTokCache},
+	"TAB-SID0":        {"TAB-SID0", rules.TabSid0},
+	"ORD-IMPORTFIRST": {"ORD-IMPORTFIRST", rules.OrdImportFirst},
+	"OWN-BUILD":       {"OWN-BUILD", rules.OwnBuild},
+	"OWN-LOBWS":       {"OWN-LOBWS", rules.OwnLobWS},
+	"NUM-ALLOC":       {"NUM-ALLOC", rules.NumAlloc(rules.ScopeAlloc, rules.AllocResiduals, 0)},
+	"NUM-BIG-ALL":     {"NUM-BIG", rules.NumBig(rules.Scope{Name: "module"}, 0)},
 }
